@@ -97,6 +97,46 @@ Definition qreplay (ds : list qdesc) (life : Z -> Z) (script : list (Z * Z)) : n
   let f1 := fold_left (qreplay_step ds life) script (mkQF ns_init (fun _ => false)) in
   qf_st (fold_left (qreplay_step ds life) (qcompletion ds f1) f1).
 
+(* ---- quotas delivered late ----
+   When a bound pod is handled before its ElasticQuota is known, the plugin parks it in the default
+   quota (quota 0 here) and, once the quota is known, migrateDefaultQuotaGroupsPod moves it with
+   GroupQuotaManager.MigratePod.  Event 6 q = the ElasticQuota q arrives and every pod parked for it
+   is migrated (in uid order). *)
+Definition q_migrate (ds : list qdesc) (st : nstate) (uid out_ in_ : Z) : nstate :=
+  if q_exists st out_ uid then
+    let asg := q_assigned st out_ uid in
+    let st1 := release no_topo (release no_topo st out_ (qk_used uid)) out_ (qk_pod uid) in
+    let st2 := add_pod no_topo st1 in_ (q_entry uid) in
+    if asg then q_mark ds st2 in_ uid else st2
+  else st.
+
+Record qlate := mkQLt { qt_st : nstate; qt_known : Z -> bool; qt_seen : Z -> bool }.
+Definition qloc (ds : list qdesc) (known : Z -> bool) (uid : Z) : Z :=
+  let q := qd_quota (qdesc_of ds uid) in if known q then q else 0.
+Definition qlate_step (nq : Z) (ds : list qdesc) (life : Z -> Z) (f : qlate) (ev : Z * Z) : qlate :=
+  let '(k, id) := ev in
+  if k =? 6 then
+    (if (1 <=? id) && (id <=? nq) && negb (qt_known f id)
+     then mkQLt (fold_left (fun st u => if qd_quota (qdesc_of ds u) =? id then q_migrate ds st u 0 id else st)
+                           (zrange 1 (length ds)) (qt_st f))
+                (upd1 (qt_known f) id true) (qt_seen f)
+     else f)
+  else if negb (qvalid ds id) then f
+  else match qobj_of life id with
+       | None => f
+       | Some o =>
+         let q := qloc ds (qt_known f) id in
+         if k =? 1 then mkQLt (q_on_add ds (qt_st f) q o) (qt_known f) (upd1 (qt_seen f) id true)
+         else if (k =? 2) || (k =? 3) then mkQLt (q_on_update ds (qt_st f) q o) (qt_known f) (qt_seen f)
+         else f
+       end.
+Definition qlate_completion (nq : Z) (ds : list qdesc) (f : qlate) : list (Z * Z) :=
+  map (fun q => (6, q)) (zrange 1 (Z.to_nat nq))
+  ++ map (fun u => (1, u)) (filter (fun u => negb (qt_seen f u)) (zrange 1 (length ds))).
+Definition qreplay_late (nq : Z) (ds : list qdesc) (life : Z -> Z) (script : list (Z * Z)) : nstate :=
+  let f1 := fold_left (qlate_step nq ds life) script (mkQLt ns_init (fun _ => false) (fun _ => false)) in
+  qt_st (fold_left (qlate_step nq ds life) (qlate_completion nq ds f1) f1).
+
 (* observable: per quota 1..nq: Used (cpu, memory); then per pod: in PodCache?, isAssigned? *)
 Record qsnap := mkQSnap { qs_used : list (Z * Z); qs_pods : list (Z * Z) }.
 Definition qsnapshot (nq : Z) (ds : list qdesc) (st : nstate) : qsnap :=
@@ -105,14 +145,18 @@ Definition qsnapshot (nq : Z) (ds : list qdesc) (st : nstate) : qsnap :=
                          ((if q_exists st q u then 1 else 0), (if q_assigned st q u then 1 else 0)))
                (zrange 1 (length ds))).
 
-Record qcase := mkQCase { q_nq : Z; q_descs : list qdesc; q_ops : list (Z * Z); q_script : list (Z * Z) }.
+Record qcase := mkQCase { q_nq : Z; q_first : bool; q_descs : list qdesc; q_ops : list (Z * Z); q_script : list (Z * Z) }.
+(* the rebuilt manager: quotas known before the pods (the order the start-up pipeline establishes),
+   or delivered by the script *)
+Definition qreplay_of (c : qcase) (life : Z -> Z) : nstate :=
+  if q_first c then qreplay (q_descs c) life (q_script c) else qreplay_late (q_nq c) (q_descs c) life (q_script c).
 Fixpoint qrun_ops (c : qcase) (l : qlive) (ops : list (Z * Z)) : list (qsnap * qsnap) :=
   match ops with
   | [] => []
   | op :: t =>
     let l' := qlive_step (q_descs c) l op in
     (qsnapshot (q_nq c) (q_descs c) (ql_st l'),
-     qsnapshot (q_nq c) (q_descs c) (qreplay (q_descs c) (ql_life l') (q_script c))) :: qrun_ops c l' t
+     qsnapshot (q_nq c) (q_descs c) (qreplay_of c (ql_life l'))) :: qrun_ops c l' t
   end.
 Definition qrun (c : qcase) := qrun_ops c qlive_init (q_ops c).
 Fixpoint qlives (c : qcase) (l : qlive) (ops : list (Z * Z)) : list (Z -> Z) :=
